@@ -2,6 +2,7 @@ package vc
 
 import (
 	"bytes"
+	"fmt"
 	"regexp"
 	"context"
 	"crypto/sha256"
@@ -29,6 +30,7 @@ type SolverOpts struct {
 	AllAgree     bool // thorough: ask every solver, report disagreement
 	Seed         int
 	WantModel    bool
+	Batch        bool
 }
 
 type solverDef struct {
@@ -199,8 +201,135 @@ func QueryHash(q string) string {
 	return hex.EncodeToString(h[:8])
 }
 
+// runBatch decides several independent queries in one z3 process (each inside its own
+// push/pop scope, with a per-query timeout). Only `unsat` answers are taken from a batch:
+// every other query is decided again on its own (with models and the solver race).
+func runBatch(queries []string, perQueryMs int, seed int) []string {
+	var b strings.Builder
+	fmt.Fprintf(&b, "(set-option :timeout %d)\n", perQueryMs)
+	for _, q := range queries {
+		b.WriteString("(push 1)\n")
+		b.WriteString(q)
+		b.WriteString("(check-sat)\n(pop 1)\n")
+	}
+	total := time.Duration(perQueryMs*len(queries)+20000) * time.Millisecond
+	ctx, cancel := context.WithTimeout(context.Background(), total)
+	defer cancel()
+	cmd := exec.CommandContext(ctx, "z3-new", "-in", "smt.random_seed="+itoa(seed))
+	cmd.Stdin = strings.NewReader(b.String())
+	var out bytes.Buffer
+	cmd.Stdout = &out
+	_ = cmd.Run()
+	res := make([]string, len(queries))
+	i := 0
+	for _, l := range strings.Split(out.String(), "\n") {
+		l = strings.TrimSpace(l)
+		switch l {
+		case "sat", "unsat", "unknown", "timeout":
+			if i < len(res) {
+				res[i] = l
+				i++
+			}
+		default:
+			if strings.HasPrefix(l, "(error") && i < len(res) {
+				// an error poisons the rest of the batch: leave everything from here undecided
+				i = len(res)
+			}
+		}
+	}
+	return res
+}
+
 // SolveAll decides every obligation, sharing identical queries.
 func SolveAll(obls []*Obligation, o SolverOpts) map[*Obligation]SolveResult {
+	// (batching several queries per solver process was measured to be slower: z3's incremental
+	// mode loses more than process start-up costs; kept for experiments only)
+	if o.Batch && !o.AllAgree && len(obls) > 8 {
+		return solveAllBatched(obls, o)
+	}
+	return solveAllSingle(obls, o)
+}
+
+func solveAllBatched(obls []*Obligation, o SolverOpts) map[*Obligation]SolveResult {
+	type item struct {
+		q   string
+		obs []*Obligation
+	}
+	byHash := map[string]*item{}
+	var order []*item
+	for _, ob := range obls {
+		h := QueryHash(ob.Query)
+		it := byHash[h]
+		if it == nil {
+			it = &item{q: ob.Query}
+			byHash[h] = it
+			order = append(order, it)
+		}
+		it.obs = append(it.obs, ob)
+	}
+	res := make(map[*Obligation]SolveResult, len(obls))
+	workers := o.Workers
+	if workers <= 0 {
+		workers = 8
+	}
+	const batchSize = 24
+	type batch struct{ items []*item }
+	var batches []batch
+	for i := 0; i < len(order); i += batchSize {
+		j := i + batchSize
+		if j > len(order) {
+			j = len(order)
+		}
+		batches = append(batches, batch{order[i:j]})
+	}
+	var mu sync.Mutex
+	var rest []*Obligation
+	ch := make(chan batch)
+	var wg sync.WaitGroup
+	ft := o.FirstTimeout
+	if ft <= 0 {
+		ft = 4
+	}
+	for w := 0; w < workers; w++ {
+		wg.Add(1)
+		go func() {
+			defer wg.Done()
+			for bt := range ch {
+				qs := make([]string, len(bt.items))
+				for i, it := range bt.items {
+					qs[i] = it.q
+				}
+				t0 := time.Now()
+				ans := runBatch(qs, ft*1000, o.Seed)
+				per := time.Since(t0).Seconds() / float64(len(qs))
+				mu.Lock()
+				for i, it := range bt.items {
+					if ans[i] == "unsat" {
+						for _, ob := range it.obs {
+							res[ob] = SolveResult{Status: "unsat", Solver: "z3-5.1.0", Seconds: per, All: map[string]string{"z3-5.1.0": "unsat"}}
+						}
+					} else {
+						rest = append(rest, it.obs...)
+					}
+				}
+				mu.Unlock()
+			}
+		}()
+	}
+	for _, bt := range batches {
+		ch <- bt
+	}
+	close(ch)
+	wg.Wait()
+	if len(rest) > 0 {
+		for ob, r := range solveAllSingle(rest, o) {
+			res[ob] = r
+		}
+	}
+	return res
+}
+
+func solveAllSingle(obls []*Obligation, o SolverOpts) map[*Obligation]SolveResult {
 	type item struct {
 		q   string
 		obs []*Obligation
